@@ -28,6 +28,7 @@ class FunctionResult:
         self.seconds = 0.0
         self.scenario = None
         self.anchors_missing = []
+        self.abstracted = []
 
 
 def verify_function(key, sources, scenario=None, prune=True):
@@ -71,6 +72,7 @@ def verify_function(key, sources, scenario=None, prune=True):
     res.unrolled = eng.unrolled
     res.assumptions = eng.assumption_log
     res.calls = sorted(set(eng.calls_seen))
+    res.abstracted = eng.abstracted
     res.seconds = time.time() - t0
     return res
 
@@ -115,12 +117,49 @@ def _run(eng, c, fn, scenario):
             post.env["result"] = VNONE
         if c.ghost_on_return:
             eng.run_ghost(post, c.ghost_on_return)
-        for i, e in enumerate(c.ensures):
-            g = SpecEval(eng, post, pre_state=post.old).boolean(e)
-            eng.oblige(post, g, "post", f"{c.labels.get(e, i)}", fn, text=e)
         for exc, cond in c.raises.items():
             g = SpecEval(eng, _pre_view(post), pre_state=None).boolean(cond)
             eng.oblige(post, z3.Not(g), "must-raise", f"{exc}", fn, text=f"normal return only if not ({cond})")
+        # name the final heap: every array that is a compound term gets a constant F!<name> with a defining equation, so that the
+        # postconditions (and the lemma-only sub-proofs) are stated over plain arrays
+        for nm, term in list(post.heap.arrs.items()):
+            if z3.is_const(term) and term.decl().kind() == z3.Z3_OP_UNINTERPRETED:
+                continue
+            fin = z3.Const(f"F!{nm}!{next(_fresh)}", term.sort())
+            post.assume(fin == term)
+            post.heap.arrs[nm] = fin
+        # each clause is proved with the clauses before it as lemmas (they are proved on this very path, so this is sound;
+        # if an earlier one fails the check fails anyway)
+        proved = {}
+        for i, e in enumerate(c.ensures):
+            lab = c.labels.get(e, str(i))
+            g = SpecEval(eng, post, pre_state=post.old).boolean(e)
+            only = c.from_lemmas.get(lab)
+            if only is not None:
+                # proof decomposition: this clause follows from the entry facts (requires, typing) and the named earlier clauses alone
+                sub = post.fork()
+                n_goal_facts = len(post.pc)
+                sub.pc = list(post.old.pc)
+                for u in only:
+                    if u not in proved:
+                        raise Unsupported(f"clause {lab} is derived from {u}, which is not an earlier ensures clause")
+                    sub.assume(proved[u])
+                g = SpecEval(eng, sub, pre_state=post.old).boolean(e)
+                eng.oblige(sub, g, "post", lab, fn, text=e + "   [from entry facts and: " + ", ".join(only) + "]")
+                proved[lab] = g
+                continue
+            uses = c.use_lemmas.get(lab, [])
+            if uses:
+                sub = post.fork()
+                for u in uses:
+                    if u not in proved:
+                        raise Unsupported(f"clause {lab} uses lemma {u}, which is not an earlier ensures clause")
+                    sub.assume(proved[u])
+                sub.pc.extend(post.pc[len(sub.pc) - len(uses):]) if False else None
+                eng.oblige(sub, g, "post", lab, fn, text=e + "   [using: " + ", ".join(uses) + "]")
+            else:
+                eng.oblige(post, g, "post", lab, fn, text=e)
+            proved[lab] = g
         frame_obligations(eng, c, post, fn)
 
     def exit_raise(s, exc, node):
